@@ -1,11 +1,11 @@
 (* C13 -- event ordering and response priority on a CS104 server connection, stated on the scheduler of
    Cs104/Server.v (sendASDUInternal, the high-priority drain loop, sendWaitingASDUs).  `itx o` is the list
    of ASDUs carried by the frames written in the observations o; `hp c` the parked responses.
-   PARTIAL with respect to the byte ring: the FIFO behaviour of the HighPriorityASDUQueue ring
-   (Cs104/MsgQueue.v, the hp_ functions) is validated operation by operation against the C functions and against a
-   FIFO oracle on every run, its ring invariant is not proved in Coq. *)
+   The byte-offset ring of HighPriorityASDUQueue (Cs104/MsgQueue.v, the hp_ functions, a literal transcription that is
+   run operation by operation against the C functions on every run) is proved to refine a FIFO for every ring size
+   and every history (Cs104/HpRingProofs.v): last four theorems. *)
 From Coq Require Import ZArith List Bool.
-From L60870 Require Import Cs104.Server Cs104.SchedProofs.
+From L60870 Require Import Cs104.Server Cs104.SchedProofs Cs104.MsgQueue Cs104.HpRingProofs.
 Import ListNotations.
 Local Open Scope Z_scope.
 
@@ -34,3 +34,37 @@ Proof. exact send_waiting_order. Qed.
 Theorem C13_refused_unchanged : forall g now c a, st c =? STARTED = false ->
   send_asdu_internal g now c a = (c, false, []).
 Proof. intros g now c a H. unfold send_asdu_internal. rewrite H. reflexivity. Qed.
+
+(* ---- the byte ring behind `hp c` ----------------------------------------------------------------------------
+   For every ring size n >= 1 and EVERY sequence of enqueue / getNext / isFull / reset operations on the literal ring:
+   no header is ever read where no live entry starts (outcome Fault = the C code would read stale or foreign octets),
+   and getNext returns exactly what a FIFO of the accepted ASDUs returns (a refused enqueue leaves the queue as it was). *)
+Theorem C13_ring_refines_fifo : forall n ops, 1 <= n ->
+  exists q' outs accs, hp_run (hp_new n) ops = MsgQueue.Ok (q', outs) /\ outs = fifo_run [] ops accs /\ length accs = length ops.
+Proof. intros n ops H. apply hp_refines_fifo. apply HPInv_new. exact H. Qed.
+
+(* one operation, any reachable state: append-or-refuse / head-of-queue, invariant kept *)
+Theorem C13_ring_enqueue : forall q L a, HPInv q L ->
+  exists b q', hp_enqueue q a = MsgQueue.Ok (b, q') /\ HPInv q' (if b then L ++ [a] else L) /\
+               (b = true -> lenz a <= 250) /\ (L = [] -> lenz a <= 250 -> b = true).
+Proof. exact hp_enqueue_spec. Qed.
+Theorem C13_ring_next : forall q L, HPInv q L ->
+  match L with
+  | [] => hp_next q = MsgQueue.Ok (None, q)
+  | a :: r => exists q', hp_next q = MsgQueue.Ok (Some a, q') /\ HPInv q' r
+  end.
+Proof. exact hp_next_spec. Qed.
+
+(* live entries lie inside the arena of n * 258 octets *)
+Theorem C13_ring_entries_in_arena : forall q L, HPInv q L -> L <> [] ->
+  0 <= hfirst q < hsize q /\ 0 <= hlast q < hsize q /\
+  exists z, hfind (hcells q) (hlast q) = Some z /\ hlast q + esz z <= hsize q.
+Proof. exact hp_entries_in_arena. Qed.
+
+(* ring of one slot (258 octets): 22 + 232 octets stored, a third entry of 12 octets is refused (no room behind, none in
+   front), after one getNext it is accepted at offset 0 (wrapped) and comes out last *)
+Example C13_ring_example :
+  exists q outs, hp_run (hp_new 1) [HEnq (repeat 1 20); HEnq (repeat 2 230); HEnq (repeat 3 10); HNext; HEnq (repeat 4 10); HNext; HNext; HNext]
+                   = MsgQueue.Ok (q, outs) /\
+                 outs = [Some (repeat 1 20); Some (repeat 2 230); Some (repeat 4 10); None].
+Proof. eexists. eexists. vm_compute. split; reflexivity. Qed.
